@@ -68,12 +68,48 @@ def _solve(i_timeout):
     if r == z3.unknown:
         res["reason"] = s.reason_unknown()
     try:
-        txt = s.to_smt2()
+        txt = _purified_smt2(s)
+        res["smt2_abstracted"] = "!abs" in txt
         res["smt2_bytes"] = len(txt)
         res["smt2"] = txt
     except Exception:
         res["smt2_bytes"] = 0
     return i, res
+
+
+def _purified_smt2(s):
+    """SMT-LIB text for the second solver.  Applications of the integer-valued uninterpreted functions whose
+    arguments are nonlinear real terms (`trunc(halo/(xmx/nx))`, `arange_len(...)`) are replaced by one fresh integer
+    constant per syntactically distinct application: an abstraction that forgets congruence between different
+    argument terms -- if the abstracted query is unsat so is the original -- and keeps the second solver inside
+    linear arithmetic, which is all these obligations need (theory separation, DESIGN 0.1)."""
+    asserts = list(s.assertions())
+    apps = {}
+
+    def walk(t):
+        if not z3.is_app(t):
+            return
+        k = t.get_id()
+        if k in seen:
+            return
+        seen[k] = t
+        if t.decl().kind() == z3.Z3_OP_UNINTERPRETED and t.num_args() > 0 and t.decl().name() in ("trunc", "arange_len") \
+                and not any(t.eq(u) for u, _ in apps.values()):
+            apps[len(apps)] = (t, z3.Int("%s!abs%d" % (t.decl().name(), len(apps))) if t.sort().kind() == z3.Z3_INT_SORT
+                               else z3.Real("%s!abs%d" % (t.decl().name(), len(apps))))
+        for c in t.children():
+            walk(c)
+    seen = {}
+    for a in asserts:
+        walk(a)
+    if not apps:
+        return s.to_smt2()
+    s2 = z3.Solver()
+    # outermost applications first so that nested ones inside their arguments disappear with them
+    subs = sorted(apps.values(), key=lambda p: -len(p[0].sexpr()))
+    for a in asserts:
+        s2.add(z3.substitute(a, *subs))
+    return s2.to_smt2()
 
 
 def run_cvc5(smt2, timeout_s):
@@ -148,11 +184,20 @@ def discharge(obligations, timeout_s=20, jobs=None, seed=0, keep_smt2=3, cvc5_al
                         pass
     # cvc5: take z3's unknowns (and everything in the thorough tier)
     kept = 0
+    texts = [r.pop("smt2", None) for r in results]
+    wanted = [i for i, r in enumerate(results) if texts[i] and (cvc5_all or r["result"] == "unknown")]
+    cv = {}
+    if wanted:
+        from multiprocessing.pool import ThreadPool
+        with ThreadPool(min(16, os.cpu_count() or 4)) as tp:
+            for i, c in zip(wanted, tp.map(lambda i: run_cvc5(texts[i], min(timeout_s, 30)), wanted)):
+                cv[i] = c
     for i, r in enumerate(results):
-        txt = r.pop("smt2", None)
-        want = cvc5_all or r["result"] == "unknown"
-        if want and txt:
-            c = run_cvc5(txt, timeout_s)
+        txt = texts[i]
+        if i in cv:
+            c = cv[i]
+            if r.get("smt2_abstracted") and c["result"] == "sat" and r["result"] != "sat":
+                c = dict(c, result="unknown", reason="sat on the congruence-free abstraction of trunc/arange_len: inconclusive")
             r["cvc5"] = c
             if r["result"] == "unknown" and c["result"] in ("sat", "unsat"):
                 r["result"] = c["result"]
